@@ -8,11 +8,13 @@ def run(ctx):
     b = build.ensure_explorer("hist_explore", "asan", extra_ld=WRAP)
     ctx.run_space(b, "prefixes", ["full=%d" % (5 if ctx.thorough else 4), "leaks=1"], cpu_limit=120)
     ctx.run_space(b, "faults", ["full=%d" % (4 if ctx.thorough else 3), "leaks=1"], cpu_limit=120)
+    if ctx.thorough:
+        ctx.run_space(b, "faults", ["full=2", "leaks=1", "pairs=1"], cpu_limit=300)
     ctx.assumptions += ["allocator hooks (--wrap=malloc,calloc,realloc,strdup,free) count the library's live allocations between reader creation and the return of lha_input_stream_free; FILE streams through --wrap=fopen,fdopen,fclose and open descriptors through fcntl",
-                        "one decode operation per member and one extract per entry; after an injected allocation failure only memory safety and the release balance are judged"]
+                        "one decode operation per member and one extract per entry; after an injected allocation failure the history goes on but only memory safety and the release balance are judged"]
     return ctx.finish(
         rule="'prefixes': the histories of C15 (all action vectors over 9 actions for the first 4 (thorough 5) entries, later entries extracted, 6 archives x 3 policies) each CUT AFTER EVERY NUMBER OF OPERATIONS, followed by lha_reader_free + lha_input_stream_free; "
-             "'faults': every history with 3 (thorough 4) free entries: the fault-free run counts the allocations K, then K runs fail the k-th one; the history continues until the fault fires and is then freed. Oracle: allocation balance zero, no FILE/descriptor left open, no sanitizer report. non-trivial = distinct (archive, policy, history)",
+             "'faults': every history with 3 (thorough 4) free entries: the fault-free run counts the allocations K, then K runs fail the k-th one; the history continues after the fault (same actions, judged only for memory safety and release) and is then freed; thorough: also every PAIR of failing allocations for the histories with 2 free entries and at most 60 allocations. Oracle: allocation balance zero, no FILE/descriptor left open, no sanitizer report. non-trivial = distinct (archive, policy, history)",
         replay_fn=lambda rep: runner.replay_explorer(rep, quiet=True))
 
 
